@@ -43,10 +43,10 @@ Definition zng_ok (c : zng_case) : bool :=
   let spill := map N.to_nat spill in
   let env_of f := mkEnv buffered spill f in
   (* the model predicts the fault-free call pattern from the sizes alone *)
-  (let '(v, _, l, nc) := zrun (env_of (mkFault FNone 0)) true thresh szs in
+  (let '(v, _, l, nc) := zrun (env_of (mkFault FNone 0)) thresh szs in
    Nat.eqb v 0 && list_eqb N.eqb (map N.of_nat l) ops && N.eqb (N.of_nat nc) nclose)
   && forallb (fun '(m, kk, v) =>
-                let '(v', _, _, _) := zrun (env_of (mkFault (mode_of m) (N.to_nat kk))) true thresh szs in
+                let '(v', _, _, _) := zrun (env_of (mkFault (mode_of m) (N.to_nat kk))) thresh szs in
                 N.eqb (N.of_nat v') v)
              observed.
 
